@@ -54,7 +54,6 @@ Theorem stale_validators_get_200 :
     lookup st k = Some e' ->
     inm <> Some (etag_of_entry h e') ->
     (forall t, parse_httpdate ims = PSome t -> t * tps < st_ticks (e_ts e')) ->
-    parse_httpdate ims <> PRaise ->
     step h tps max_age st (Req svc k inm ims up)
     = (st, Some (Resp (full_resp h tps max_age (info_of_entry e') (e_body e')))).
 Proof. exact stale_validators_200. Qed.
@@ -67,27 +66,27 @@ Theorem etag_not_injective_refuted :
                 forall h, etag_of_entry h e1 = etag_of_entry h e2.
 Proof. exact etag_source_ambiguous. Qed.
 
-(* A malformed date (one that email.utils.parsedate rejects) - more generally any If-Modified-Since for which
-   parse_httpdate returns None - is ignored: the answer equals the answer without the header. *)
+(* A malformed date is ignored: any If-Modified-Since for which parse_httpdate returns None - text that
+   email.utils.parsedate rejects (ImsBad) and, since the repair of F18, dates it accepts but that cannot be converted -
+   gets the answer that the same request without the header gets. *)
 Theorem malformed_date_ignored :
   forall svc h tps max_age ti body inm ims,
     parse_httpdate ims = PNone ->
     serve svc h tps max_age ti body inm ims = serve svc h tps max_age ti body inm ImsAbsent.
 Proof. exact serve_malformed_date. Qed.
 
-(* Dates that parsedate accepts never break the request as long as the year is at most 9999 ... *)
-Theorem in_range_date_no_error :
+(* ... in particular every date with a year above 9999 (was finding F18: answered 500 before the repair). *)
+Theorem out_of_range_date_ignored :
   forall svc h tps max_age ti body inm y mo d hh mi ss,
-    0 <= y <= 9999 -> 1 <= mo <= 12 ->
-    serve svc h tps max_age ti body inm (ImsDate y mo d hh mi ss) <> Err500.
-Proof. exact serve_in_range_no_500. Qed.
+    9999 < y ->
+    serve svc h tps max_age ti body inm (ImsDate y mo d hh mi ss) = serve svc h tps max_age ti body inm ImsAbsent.
+Proof. exact serve_out_of_range_date. Qed.
 
-(* ... and the full statement "every date is either honoured or ignored" is false of the code: year 10000 makes
-   parse_httpdate raise and the request is answered 500 (finding, see proposed_fixes/C20-ims-year-out-of-range.md). *)
-Theorem out_of_range_date_ignored_refuted :
-  exists svc h tps max_age ti body inm ims,
-    ti_cacheable ti = true /\ serve svc h tps max_age ti body inm ims = Err500.
-Proof. exact out_of_range_date_500. Qed.
+(* No conditional header whatsoever makes a tile request fail: the answer is never the error outcome. *)
+Theorem conditional_headers_never_fail :
+  forall svc h tps max_age ti body inm ims,
+    serve svc h tps max_age ti body inm ims <> Err500.
+Proof. exact serve_no_500. Qed.
 
 (* Tiles that must not be cached are sent with no-store directives, by all four services: status 200, the image,
    Cache-Control no-cache/no-store + Pragma + Expires, no ETag, no Last-modified, no public max-age - and never
